@@ -283,7 +283,19 @@ func (u *UserHash) SetAdmin(adminState bool) error {
 		oldname += adminExt
 		newname += userExt
 	}
-	return os.Rename(oldname, newname)
+
+	// the directory is opened before the move so that only the flush itself can fail afterwards
+	dir, err := os.Open(filepath.Dir(newname))
+	if err != nil {
+		return err
+	}
+	defer dir.Close() //nolint:errcheck
+
+	if err := os.Rename(oldname, newname); err != nil {
+		return err
+	}
+	// Flush the move to disk
+	return dir.Sync()
 }
 
 // Remove deletes hash file.
@@ -294,6 +306,12 @@ func (u *UserHash) Remove() {
 	filename := filepath.Join(u.store.BaseDir, u.user)
 	os.Remove(filename + adminExt) //nolint:errcheck
 	os.Remove(filename + userExt)  //nolint:errcheck
+
+	// Flush the removal to disk
+	if dir, err := os.Open(filepath.Dir(filename)); err == nil {
+		dir.Sync()  //nolint:errcheck
+		dir.Close() //nolint:errcheck
+	}
 }
 
 // Exists checks if user exists. It also returns whether user is an admin. This returns true even if
